@@ -177,6 +177,8 @@ func checkC13(c *Ctx) {
 
 	// R13.3 ---------------------------------------------------------------
 	c13Wrappers(c)
+	c.Rule("R13.7", "a combined syncer owns its list of sinks: nothing is appended into spare capacity of a list another syncer holds (two syncers extended from one base would overwrite each other's sinks: one of them never reaches a sink it was built with)", 1)
+	c7AppendsAll(c, "R13.7")
 	c.Rule("R13.6", "a combined syncer keeps every sink it is given, in order (a sink dropped at construction never reports a short write or an error), and zap.CombineWriteSyncers puts ONE lock around the whole group", 4)
 	cKeepsAll(c, "R13.6", c.Func(CorePath, "NewMultiWriteSyncer"), "zapcore.NewMultiWriteSyncer", "ret(cores[0:0])")
 	c4LocksCombined(c, "R13.6")
